@@ -2,7 +2,7 @@
 import vlib, extract, genobl
 
 
-def prove(ctx, modules, with_obligations=True, with_wrappers=False):
+def prove(ctx, modules, with_obligations=True, with_wrappers=False, wrap_kinds=('c01',)):
     tabs = extract.tables()
     extract.write_lean(tabs)
     gen = []
@@ -10,12 +10,12 @@ def prove(ctx, modules, with_obligations=True, with_wrappers=False):
     if with_wrappers:
         import wrapgen
         wnames, winfo, _ = wrapgen.write(tabs)
-        onames, omissing = wrapgen.write_obligations(tabs, winfo)
+        onames, omissing, wmods = wrapgen.write_obligations(tabs, winfo, wrap_kinds)
         for n, why in omissing:
-            ctx.oblige('IRGen.WrapObl.cw_%s' % n, False, 'protocol listed in tools/fragment.json (wrapC01/wrapC05) has no traced wrapper any more: ' + why)
+            ctx.oblige('IRGen.WrapObl.%s' % n, False, 'protocol listed in tools/fragment.json has no traced wrapper any more: ' + why)
         ctx.extra['wrappers_traced'] = dict(encode=sum(1 for v in winfo.values() if v['encode'] == 'traced'),
                                             decode=sum(1 for v in winfo.values() if v['decode'] in ('traced', 'not overridden')),
-                                            c01_obligations=len(onames))
+                                            wrapper_obligations=len(onames))
         ctx.extra['wrappers_opaque'] = {n: dict(encode=v['encode'], decode=v['decode']) for n, v in sorted(winfo.items())
                                         if v['encode'] != 'traced' or v['decode'] not in ('traced', 'not overridden')}
         ctx.winfo = winfo
@@ -27,7 +27,7 @@ def prove(ctx, modules, with_obligations=True, with_wrappers=False):
             ctx.oblige('IRGen.Obl.wf_%s' % m, False, 'protocol listed in tools/fragment.json is no longer modelled (table shape changed)')
         ctx.extra['classA_protocols'] = len(names) // 3
     if with_wrappers:
-        gen = gen + ['IRGen.WrapObl']
+        gen = gen + wmods
     ok = vlib.prove(ctx, modules, gen)
     return tabs, ok
 
